@@ -4,6 +4,8 @@
 //verif:assume programs of 3 (thorough: 4) operations - from the empty tree, or 2 (thorough: 3) after a fixed three-operation prelude (mkdir d, create d/x, write d/x; or create x, unlink x, mkdir d) - chosen by the solver from {mkdir, create, write (append two bytes, or overwrite the first byte), truncate (to nothing, or two bytes longer), unlink, rmdir, rename} over the parents {root, directory d} and the names {d, x}; the staging area is an in-memory afero.Fs model; commit runs the real Commit() (real cafs, BLAKE2b as UF) and the committed bundle is read back with DownloadMetadata
 //verif:assume commit under a fault: two files (x at the root, d/x) written, then Commit() with one transient fault at a solver-chosen mutating store call (blob or metadata store)
 //verif:cover VerifC18CommitFault commit-failed
+//verif:assume staging write fault: the staging file system accepts only the first k (0..4) bytes of a five-byte write
+//verif:cover VerifC18WriteFault short-write
 //verif:cover VerifC18Programs eexist enoent enotempty renamed replaced-by-rename committed-nested-file in-place-overwrite extending-truncate prelude-nested-file prelude-inode-reuse
 package fuse
 
@@ -375,4 +377,29 @@ func VerifC18CommitFault() {
 		}
 		vAssert(len(names) == 2 && names["x"] && names["d/x"], "published-bundle-holds-every-visible-file")
 	}
+}
+
+// VerifC18WriteFault: a write that the staging area cuts short is reported to the kernel as an error, and the file's
+// size never claims bytes that were not stored.
+func VerifC18WriteFault() {
+	vBudget(100000000)
+	fs, _ := vNewMutable()
+	ctx := context.Background()
+	cf := &fuseops.CreateFileOp{Parent: fuseops.RootInodeID, Name: "x"}
+	vAssert(fs.CreateFile(ctx, cf) == nil, "create")
+	staging, _ := fs.localCache.(*vFs)
+	vAssert(staging != nil, "staging")
+	room := vInt("accepted", 0, 4)
+	staging.writeFault = func(name string, written int) int {
+		if room-written < 0 {
+			return 0
+		}
+		return room - written
+	}
+	vCover("short-write")
+	err := fs.WriteFile(ctx, &fuseops.WriteFileOp{Inode: cf.Entry.Child, Offset: 0, Data: []byte("hello")})
+	vAssert(err != nil, "write-cut-short-by-the-staging-area-is-reported")
+	ga := &fuseops.GetInodeAttributesOp{Inode: cf.Entry.Child}
+	vAssert(fs.GetInodeAttributes(ctx, ga) == nil, "getattr")
+	vAssert(ga.Attributes.Size <= uint64(room), "size-never-claims-bytes-that-were-not-stored")
 }
